@@ -437,6 +437,9 @@ impl<T: Decode> Decode for Vec<T> {
         if bytes.is_empty() {
             Ok(vec![])
         } else if T::is_ssz_fixed_len() {
+            if T::ssz_fixed_len() == 0 {
+                return Err(DecodeError::ZeroLengthItem);
+            }
             bytes
                 .chunks(T::ssz_fixed_len())
                 .map(T::from_ssz_bytes)
@@ -456,6 +459,9 @@ impl<T: Decode, const N: usize> Decode for SmallVec<[T; N]> {
         if bytes.is_empty() {
             Ok(SmallVec::new())
         } else if T::is_ssz_fixed_len() {
+            if T::ssz_fixed_len() == 0 {
+                return Err(DecodeError::ZeroLengthItem);
+            }
             bytes
                 .chunks(T::ssz_fixed_len())
                 .map(T::from_ssz_bytes)
@@ -479,6 +485,9 @@ where
         if bytes.is_empty() {
             Ok(Self::from_iter(iter::empty()))
         } else if <(K, V)>::is_ssz_fixed_len() {
+            if <(K, V)>::ssz_fixed_len() == 0 {
+                return Err(DecodeError::ZeroLengthItem);
+            }
             bytes
                 .chunks(<(K, V)>::ssz_fixed_len())
                 .map(<(K, V)>::from_ssz_bytes)
@@ -501,6 +510,9 @@ where
         if bytes.is_empty() {
             Ok(Self::from_iter(iter::empty()))
         } else if T::is_ssz_fixed_len() {
+            if T::ssz_fixed_len() == 0 {
+                return Err(DecodeError::ZeroLengthItem);
+            }
             bytes
                 .chunks(T::ssz_fixed_len())
                 .map(T::from_ssz_bytes)
